@@ -301,16 +301,19 @@ def dstName : Opnd → List String
 
 /-! ### one two-operand ALU instruction -/
 
+/-- the second operand of a two-operand instruction: an immediate shorter than the destination is sign-extended
+    (capstone already reports it so) -/
+def srcVal (i : Ins) (σ : St) (w : Nat) : Opnd → Option (BitVec w)
+  | .imm v bytes => some (sext (BitVec.ofNat (8 * bytes) v) w)
+  | o => readOp i σ w o
+
 def alu2 (i : Ins) (σ : St) (f : (w : Nat) → St → BitVec w → BitVec w → BitVec w × St) (store : Bool) : Out :=
   match i.ops with
   | [d, s] =>
     let w := d.bits
     orTrap do
       let a ← readOp i σ w d
-      -- an immediate shorter than the destination is sign-extended (capstone already reports it so)
-      let b ← match s with
-        | .imm v bytes => some (sext (BitVec.ofNat (8 * bytes) v) w)
-        | _ => readOp i σ w s
+      let b ← srcVal i σ w s
       let (r, σ') := f w σ a b
       let σ'' ← if store then writeOp i σ' w r d else some σ'
       pure (done i σ'')
